@@ -510,16 +510,19 @@ pub fn e2_jobs(prop: &str, tier: Tier) -> Vec<E2Job> {
         let mut scs = Vec::new();
         for p in tl(2) {
             let info = PlanInfo::of(&p);
-            if !info.nodes.iter().any(|n| n.kind == crate::spec::Kind::Tl && n.parent.is_none()) {
-                continue;
-            }
-            for script in ["DW", "DRW", "DXW", "DOW", "DMW", "DWDW", "DDW"] {
+            let has_tl = info.nodes.iter().any(|n| n.kind == crate::spec::Kind::Tl && n.parent.is_none());
+            // back-to-back dispatch() calls (the second issued while the first may still be in flight) on every plan,
+            // the polling / accessor scripts on the plans with thread-local systems
+            let scripts: &[&str] = if has_tl { &["DW", "DRW", "DXW", "DOW", "DMW", "DWDW", "DDW", "DD", "DDD", "DRDW"] } else { &["DD", "DDD", "DDW", "DRDW", "DXDD"] };
+            for script in scripts.iter().copied() {
                 let mut sc = Scenario::plain(p.clone(), Mode::Async, 0);
                 sc.script = Some(script.to_string());
                 scs.push(sc);
             }
         }
-        jobs.push(E2Job { label: "async scripts over thread-local plans: polling / accessors between dispatch and wait".into(), scenarios: scs, bounds: b(if q { 0 } else { 1 }), delay: false });
+        jobs.push(E2Job { label: "async scripts over thread-local plans (polling / accessors between dispatch and wait) and back-to-back dispatch() calls on every <= 2-op plan".into(), scenarios: scs, bounds: b(1), delay: false });
+    }
+    if prop == "C04" || prop == "C05" {
         // pool-size sweep: stages wider than / equal to / narrower than the pool
         let mut scs = Vec::new();
         for w in [2usize, 3, 5, 7] {
@@ -603,7 +606,13 @@ pub fn e2_jobs(prop: &str, tier: Tier) -> Vec<E2Job> {
                             v.push(s.clone());
                             // the same panic raised at the end of run, after the system has written through its guards
                             if c.len() == 1 && !c[0].1 && info.nodes[c[0].0].kind != crate::spec::Kind::Batch {
-                                s.panic_late = true;
+                                let mut l = s.clone();
+                                l.panic_late = true;
+                                v.push(l);
+                            }
+                            // the same panic carrying a typed payload (`panic_any` of a type that is neither &str nor String)
+                            if c.len() == 1 {
+                                s.panic_typed = true;
                                 v.push(s);
                             }
                         }
@@ -763,6 +772,35 @@ pub fn e2_jobs(prop: &str, tier: Tier) -> Vec<E2Job> {
                     }
                 }
                 jobs.push(E2Job { label: "batches whose controller dispatches 0 / 2 / 3 times (hand-written and MultiDispatcher) with thread-local systems inside".into(), scenarios: scen(&plans, &[Mode::Dispatch], &[1, 2]), bounds: b(if q { 0 } else { 1 }), delay: false });
+            }
+            {
+                // pool-size sweep: a user-supplied / default pool of 1, 2, 3 threads (a one-thread pool included): the
+                // thread-local systems run all the same, at top level and inside a batch (which shares the pool)
+                let sy = |n: &str, w: &[u8]| Op::Sys(crate::spec::SysSpec { name: n.into(), reads: vec![], writes: w.to_vec(), time: 3, deps: vec![] });
+                let tlop = |w: &[u8]| Op::Tl(crate::spec::SysSpec { name: String::new(), reads: vec![], writes: w.to_vec(), time: 3, deps: vec![] });
+                let mut plans: Vec<Vec<Op>> = tl(2).into_iter().filter(|p| p.iter().any(|o| matches!(o, Op::Tl(_)))).collect();
+                for multi in [false, true] {
+                    let batch = Op::Batch(crate::spec::BatchSpec { name: "b".into(), deps: vec![], ctrl: crate::spec::CtrlData::Unit, times: 2, multi, fetch_data: false, inner: vec![sy("a", &[0]), tlop(&[0]), tlop(&[])] });
+                    plans.push(vec![batch.clone(), tlop(&[])]);
+                    plans.push(vec![sy("o", &[1]), batch]);
+                }
+                let mut scs = Vec::new();
+                for p in &plans {
+                    for n in [1usize, 2, 3] {
+                        for user in [true, false] {
+                            for mode in [Mode::Dispatch, Mode::Async] {
+                                let mut s = Scenario::plain(p.clone(), mode, 2);
+                                if user {
+                                    s.user_pool = Some(n);
+                                } else {
+                                    s.default_threads = Some(n);
+                                }
+                                scs.push(s);
+                            }
+                        }
+                    }
+                }
+                jobs.push(E2Job { label: "pool-size sweep: thread-local plans (top level, inside hand-written / MultiDispatcher batches) on user-supplied / default pools of 1..3 threads".into(), scenarios: scs, bounds: b(if q { 0 } else { 1 }), delay: false });
             }
             jobs.push(E2Job { label: "thread-local plans, 3 ops".into(), scenarios: scen(&tl(3).into_iter().filter(|p| p.len() == 3).collect::<Vec<_>>(), &[Mode::Dispatch, Mode::Async], &[1]), bounds: b(if q { 1 } else { 2 }), delay: false });
             if !q {
@@ -1025,6 +1063,35 @@ fn c11_scenarios(w: usize, n: usize) -> Vec<(String, Scenario)> {
             }
         }
     }
+    // a batch whose inner stage is the wide one, sharing its outer stage with a trivial sibling registered after /
+    // before it (the sibling's job may still sit in a queue when the controller starts): hand-written controller
+    // and the library's MultiDispatcher, one and two inner dispatches
+    for multi in [false, true] {
+        for sibling_first in [false, true] {
+            for times in [1u8, 2] {
+                // the full cross for width 2; for wider stages the MultiDispatcher with the sibling registered after it
+                let keep = if w == 2 { !(times == 2 && (sibling_first || !multi)) } else { multi && !sibling_first && times == 1 };
+                if !keep {
+                    continue;
+                }
+                let sib = Op::Sys(crate::spec::SysSpec { name: "sib".into(), reads: vec![], writes: vec![], time: 3, deps: vec![] });
+                let b = Op::Batch(crate::spec::BatchSpec { name: "b".into(), deps: vec![], ctrl: crate::spec::CtrlData::Unit, times, multi, fetch_data: false, inner: wide_stage(w) });
+                let (ops, first) = if sibling_first { (vec![sib, b], 2usize) } else { (vec![b, sib], 1usize) };
+                // the sibling may occupy a thread: one more keeps the rendezvous within the property's domain
+                let threads = if n >= w { n + 1 } else { n };
+                for user in [true, false] {
+                    let mut s = Scenario::plain(ops.clone(), Mode::Dispatch, 1);
+                    if user {
+                        s.user_pool = Some(threads);
+                    } else {
+                        s.default_threads = Some(threads);
+                    }
+                    s.rendezvous = Some(((first..first + w).collect(), w as u16));
+                    v.push((format!("batch ({} controller, x{}) beside a sibling registered {} it / inner width {} / {} threads", if multi { "MultiDispatcher" } else { "hand-written" }, times, if sibling_first { "before" } else { "after" }, w, threads), s));
+                }
+            }
+        }
+    }
     // batch-inner stage
     let inner = wide_stage(w);
     let batch = vec![Op::Batch(crate::spec::BatchSpec { name: "b".into(), deps: vec![], ctrl: crate::spec::CtrlData::Unit, times: 1, multi: false, fetch_data: false, inner })];
@@ -1047,7 +1114,7 @@ pub fn run_c11(tier: Tier, budget: Duration, frag: &mut Frag) {
         cfgs.extend([(3, 2, false), (4, 1, false), (4, 3, true), (5, 2, true), (6, 2, true), (8, 2, true), (12, 1, true), (16, 1, true)]);
     }
     // cheap configurations first (delay-bounded ones, then by width): what they do not use is passed on
-    cfgs.sort_by_key(|(w, b, delay)| (!*delay && *w >= 3, *w as u32 * (*b + 1)));
+    cfgs.sort_by_key(|(w, b, delay)| (!*delay, *w as u32 * (*b + 1)));
     let mut neg_deadlocks = 0u64;
     let mut neg_runs = 0u64;
     let ncfg = cfgs.len() as u32;
@@ -1392,6 +1459,16 @@ pub fn run_c16(tier: Tier, budget: Duration, frag: &mut Frag) {
         "cases": cases, "cases_that_panicked": panics, "wall_s": t0.elapsed().as_secs_f64()}));
     frag.states += cases;
     frag.transitions += cases;
+    // the par! / seq! macros against new / with
+    {
+        let t0 = Instant::now();
+        let ts = trees(if q { 3 } else { 4 }, 3, if q { 3 } else { 4 }, &alpha, false);
+        let n = macro_differential(&ts, &mut frag.col);
+        frag.parts.push(json!({"engine":"E1-style enumeration","what":format!("every par/seq tree with <= {} leaves (depth <= 3, 5-element leaf alphabet, conflicting par children included) built with the par! / seq! macros and with new / with, set up twice and dispatched twice inline: build panics, reported access, counters, final world and event order agree", if q { 3 } else { 4 }),
+            "cases": n, "wall_s": t0.elapsed().as_secs_f64()}));
+        frag.states += n;
+        frag.transitions += n;
+    }
     // run-time part
     let start = Instant::now();
     let alpha3: Vec<(Vec<u8>, Vec<u8>)> = acc(&[(&[0], &[]), (&[], &[0]), (&[], &[1])]);
@@ -1532,6 +1609,21 @@ pub fn run_c17(tier: Tier, budget: Duration, frag: &mut Frag) {
     frag.traces_validated += st.histories;
     frag.exhaustive &= !st.capped;
     frag.samples.extend(samples);
+    // creation-path sweep: the resources reach the world by insert, the entry API, a default provider (setup), and
+    // there are decoys under a dynamic id; de-duplicated on (registration order, present set, creation path, decoys)
+    let t1 = Instant::now();
+    let alpha = crate::c17::alphabet_paths();
+    let na = alpha.len();
+    let (st, _) = crate::c17::run_with(alpha, 14, t0 + budget, threads(), &mut frag.col);
+    frag.parts.push(json!({
+        "engine": "E3 histmc",
+        "what": format!("meta-table histories, creation paths: breadth-first over {} operations (register / insert / remove x3 types, World::entry().or_insert_with x2, World::setup::<Read/Write> x2, a decoy of a registered and of an unregistered type under dynamic id 1, get / get_mut, iter / iter_mut), depth <= 14, de-duplicated on (first-registration order, present set, how each resource was created, decoys)", na),
+        "histories": st.histories, "distinct_observed_states": st.states, "max_depth": st.max_depth, "cap_hit": st.capped, "wall_s": t1.elapsed().as_secs_f64(),
+    }));
+    frag.states += st.states;
+    frag.transitions += st.transitions;
+    frag.traces_validated += st.histories;
+    frag.exhaustive &= !st.capped;
 }
 
 
